@@ -30,7 +30,8 @@ CHECKS = {
              'public classes from Expressible values, the corpus, and wild API-built ones whose named reason outside Expressible '
              'must be a listed finding. Correspondence: the Lean DBML renderer produces the same text and the Lean parser model '
              'reads it back to the same content. Theorems tables_roundtrip_partial (any positive number of tables with different '
-             'names, each with any positive number of columns with quoted names and one-word types) and sticky_roundtrip_partial prove the round trip end to end (renderer model, '
+             'names, each with any positive number of columns with quoted names and one-word types), enum_roundtrip_partial (an enum with '
+             'any positive number of items) and sticky_roundtrip_partial prove the round trip end to end (renderer model, '
              'character-level parser model, build model) - partial: everything else is decided by oracle + correspondence. Lexical round-trip '
              'theorems are claimed under C13.',
         note='trusted: hand-written models tied by sampling; Expressible predicate (harness/expressible.py, mirrored by Domain.lean)',
@@ -179,7 +180,8 @@ CHECKS = {
     'C18': dict(
         level='proof',
         text='Lean theorems: the CREATE TABLE order is a permutation of the tables (perm, nodup, perm_tables) and a function of table '
-             'names and hosted inline references only (depends_only_on_model). The first clause (referenced tables first) is false of '
+             'names and hosted inline references only (depends_only_on_model); what the order IS: the declaration order stably sorted by '
+             'the number of hosted inline references, most first (order_sorted, order_stable, order_identity_without_hosts). The first clause (referenced tables first) is false of '
              'the current code: kernel-checked witness chain_violates, replayed on the real code and recorded as known finding '
              'KF-C18-hosts-first (tests pin the behaviour). Model tied to reorder_tables_for_sql / db.sql by differential testing; '
              'order read back by an independent DDL reader.',
